@@ -312,6 +312,15 @@ def session_leg(ctx: Ctx, maxops: int):
             ctx.nontrivial.add(("session", json.dumps(c["hist"], sort_keys=True)))
         for b in bad:
             ctx.violation({"session": b["history"], "step": b["step"]}, b, kind="replay")
+    # unbounded histories (thorough tier): Apalache discharges that CacheCoherent is an inductive invariant of the object machine
+    if not ctx.quick:
+        from ..tlc import run_apalache
+
+        base_case = run_apalache("Apa_ParserSession", "Init", "IndInv", 0, "c14a")
+        step = run_apalache("Apa_ParserSession", "IndInit", "IndInv", 1, "c14a")
+        ctx.notes["apalache_inductive_invariant_CacheCoherent"] = {"Init => IndInv": base_case, "IndInv /\\ Next => IndInv'": step}
+        if not (base_case["ok"] and step["ok"]):
+            raise MachineryError(f"Apalache refutes the inductive invariant of ParserSession: {base_case} {step}")
     # deep histories: random behaviours of the same specification (tlc -simulate), replayed like the enumerated ones
     from ..tlc import simulate_emitted
 
